@@ -94,6 +94,9 @@ func c06(c *Ctx) {
 	// ownership mark happens in the critical section of the lookup (shared rule C01.R2)
 	c01R2(c)
 	c01R8(c)
+	// the start-up trim lists the idle addresses only after the stored owners were restored, however
+	// the list reaches the loop (shared rule C01.R10): "shrinking removes idle addresses only"
+	c01R10(c)
 	// an address leaves the pool's count only after the cloud confirmed its removal (shared rule): the
 	// cap check counts what the set holds
 	c07R3(c)
